@@ -136,6 +136,8 @@ class Overlay:
         for d in unit.get("dep_rewrite", []):
             p = os.path.join(self.dir, d["file"])
             s = open(p).read()
+            if d["to"] in s:
+                continue
             if d["from"] not in s:
                 raise AnchorLost(f"dependency line not found in {d['file']}: {d['from']}")
             s = s.replace(d["from"], d["to"])
